@@ -43,3 +43,13 @@ chk("C06", "fault_enumeration",
     "For two histories (one log: first use/growth/refresh; two logs interleaved with refused forks) the worker process is killed before and after every one of the ~112 database/sql driver operations and on entry to every reachable file syscall on the database and its journal; a fresh process reopens the store (SQLite recovery), reports the state and probes the restarted witness. Oracle: stored rows are complete valid cosigned checkpoints; in-flight log holds the last acknowledged or the being-written checkpoint, other logs exactly the last acknowledged one; forks still refused, growth accepted.",
     "Process kill, not power loss (no torn sectors, no lost un-fsynced data). strace's injection counter cannot address syscalls on the journal fd before its path resolves, so about a quarter of the syscall boundaries (journal-only writes before the database file is touched) are covered only at driver-operation granularity; the number reached is in the evidence.",
     "DESIGN.md §5 C06, §4.3")
+chk("C10", "model_checking",
+    "explicit-state BFS whose transitions are HTTP requests to the real add-checkpoint handler in front of the real witness; every answer compared with wmodel composed with the protocol's status map",
+    "States are witness states reached through the endpoint itself; in every state the full request alphabet of C01 (rendered as tlog-witness request bodies), an unknown origin and malformed bodies are sent to the handler built as FeedBastion builds it (same MaxBytesHandler), with the real witnessAdapter and witness behind it, on both stores. Status, Content-Type and body are compared with the model: 200 bodies must be cosignature lines verifying under the published witness key over the submitted text, stale 409 bodies the true size. Three limiter regimes check that 429 answers were not processed. Thorough replays a transition tour over a real TLS 1.3 + HTTP/2 reverse connection to a stub bastion.",
+    "The unexported handler is reached through a verification-only export file added with go build -overlay. Rate-limit timing oracle is a sound counting bound, not an exact one.",
+    "DESIGN.md §5 C10")
+chk("C11", "exploration",
+    "bounded-exhaustive input enumeration (all token strings up to a length, complete 1-edit neighbourhoods, boundary-value products) against a reference parser with accept / must-refuse / unspecified classes",
+    "Round trip: boundary old sizes x 5000+ proof lists x 2800+ checkpoint byte strings written by two writers must parse back exactly; every proof list incl. the empty one through Proof.Marshal/Unmarshal. Refusal: every string of <= 5 (quick) / 6 (thorough) tokens over a 12-token alphabet and the complete 1-edit neighbourhood of four valid bodies are classified by a reference parser written from the spec; must-refuse bodies that are understood, or refusals that return data, are violations. Leniencies the property does not name are not judged.",
+    "Exhaustive over the stated finite sets only, not over all byte strings.",
+    "DESIGN.md §5 C11, §4.4", True)
